@@ -220,3 +220,36 @@ Qed.
 End Run.
 Print Assumptions run_transparent.
 Print Assumptions at_most_once.
+
+(* ---- C07_bound: at most (number of rules) x (length of the input + 1) body evaluations ---- *)
+Section Bound.
+Variables (nrules len : nat).
+Definition in_range (k : nat * nat) := fst k < nrules /\ snd k <= len.
+Definition all_keys : list (nat * nat) :=
+  flat_map (fun r => map (fun p => (r, p)) (seq 0 (S len))) (seq 0 nrules).
+
+Lemma all_keys_complete k : in_range k -> In k all_keys.
+Proof.
+  destruct k as [r p]. intros (Hr & Hp). unfold all_keys. apply in_flat_map. exists r. split.
+  - apply in_seq. cbn in *. lia.
+  - apply in_map_iff. exists p. split; auto. apply in_seq. cbn in *. lia.
+Qed.
+Lemma flat_map_length_const {A B} (f : A -> list B) c l :
+  (forall x, length (f x) = c) -> length (flat_map f l) = length l * c.
+Proof. intros H. induction l as [|x l IH]; cbn; auto. rewrite app_length, H, IH. reflexivity. Qed.
+Lemma all_keys_length : length all_keys = nrules * S len.
+Proof.
+  unfold all_keys. rewrite (flat_map_length_const _ (S len)).
+  - rewrite seq_length. reflexivity.
+  - intros r. rewrite map_length, seq_length. reflexivity.
+Qed.
+
+(* with at_most_once (NoDup of the evaluation log) this is the packrat bound *)
+Theorem eval_bound (lg : list (nat * nat)) :
+  NoDup lg -> (forall k, In k lg -> in_range k) -> length lg <= nrules * S len.
+Proof.
+  intros Hnd Hin. rewrite <- all_keys_length. apply NoDup_incl_length; auto.
+  intros k Hk. apply all_keys_complete, Hin, Hk.
+Qed.
+End Bound.
+Print Assumptions eval_bound.
